@@ -9,9 +9,9 @@ def hook_commits():
     return [l.split()[0] for l in out.splitlines() if "verif" in l and not l.split(" ", 1)[1].startswith("fix:")]
 
 CLAIMED = {
- "C01": dict(cat="exploration", tech="deterministic simulation: seeded schedules x source kinds x panicnil lanes over exhaustive short token strings, generated programs and mutants; process-death and deadlock detection",
+ "C01": dict(cat="exploration", tech="deterministic simulation: seeded schedules x source kinds (incl. failing sources) x panicnil/386 lanes over exhaustive short token strings, generated programs, mutants and huge flat inputs; process-death, deadlock and hang detection",
    text="Every token string of length <=3 over the shell alphabet, curated crashers, generated programs and mutants are parsed inside the simulator under both extreme schedules and seeded ones, with all four source kinds, with and without alias tables, in separate worker processes running with GODEBUG=panicnil=0 and =1. A panic in any goroutine kills the worker and is attributed to the case; deadlocks, step-budget overruns and reader no-progress loops are detected by the scheduler. Sampling beyond the enumerated token strings: evidence, not proof.",
-   note="Trusts go1.26.8 testing/synctest quiescence; hangs inside non-yielding code are caught by a 20 s wall-clock watchdog; inputs beyond the enumerated/sampled ones are not covered.", ref="DESIGN.md §5 C01"),
+   note="Trusts go1.26.8 testing/synctest quiescence; hangs inside non-yielding code are caught by a watchdog (20 s without a finished run, judged by the process's CPU time and run-queue wait so that a starved process is not called hung); a third lane runs every eighth case in a GOARCH=386 build; huge flat inputs run under a 16 MiB stack limit and a step budget linear in the input; inputs beyond the enumerated/sampled ones are not covered.", ref="DESIGN.md §5 C01"),
  "C06": dict(cat="exploration", tech="deterministic simulation: real goroutines parked at verifYield hooks, seeded scheduler with choice tape, cross-schedule result comparison, quiescence-at-return and leak invariants",
    text="For each case (valid, invalid, parser error followed by lexer error, reader faults, arithmetic with several faults) the real ParseCommands/Eval/Expand run under parser-first, lexer-first and N seeded schedules (uniform, sticky, PCT, alternate) with select ties forced from the tape; the canonical dump of everything returned plus the reader offset must be identical across schedules, every lexer goroutine must have exited when the entry point returns, no reader operation may happen afterwards and nothing may stay blocked. Violations are minimised (generator tape, text, schedule tape) and written as replay files that reproduce the same event log.",
    note="Interleavings are explored at the granularity of the hook points (every native blocking operation); data races inside unsynchronised stretches are the race lane's business (see DESIGN.md §3.9). Sampling, not enumeration.", ref="DESIGN.md §5 C06"),
